@@ -404,6 +404,43 @@ class GenerateCode:
 SC = "json_to_models/models/string_converters.py"
 
 
+@contract(SC + "::get_string_field_paths", props=[], verify=False)
+class GetStringFieldPaths:
+    """stub (work-list walk over the IR, outside the translated subset; decided by the bounded C18 stand-in): a pure function of
+    the model giving (JSON key, path tokens) pairs"""
+    sorts = {"result": "list"}
+    deterministic = True
+
+    def ensures(self, model, result):
+        return {"pairs": ty_is(result, list) and forall(range(seq_len(result)), lambda j: at(result, j) is tuple2(at(at(result, j), 0), at(at(result, j), 1))
+                                                         and ty_is(at(at(result, j), 0), str) and ty_is(at(at(result, j), 1), list)
+                                                         and forall(as_list(at(at(result, j), 1)), lambda tk: ty_is(tk, str)))}
+
+
+@contract(GEN + ".string_field_paths", props=["C18"])
+class StringFieldPaths:
+    """C18: the converter paths handed to convert_strings name the ATTRIBUTES of the generated class (the sanitised names), one entry
+    per string field found, in the same order; an entry without container tokens is the attribute name itself."""
+    sorts = {"result": "list", "convert_unicode": "bool", "blacklist_words": "set"}
+
+    def requires(self):
+        found = get_string_field_paths(self.model)
+        return {"keys_in_domain": forall(range(seq_len(found)), lambda j: key_ok(self, sval(at(at(found, j), 0)))),
+                "suffix_escapes_blacklist": blacklist_ok()}
+
+    def ensures(self, result):
+        found = get_string_field_paths(self.model)
+        return {
+            "one_entry_per_string_field": ty_is(result, list) and seq_len(result) == seq_len(found),
+            "entries_name_attributes": forall(range(seq_len(found)), lambda j: implies(
+                seq_len(at(at(found, j), 1)) == 0,
+                sval(at(result, j)) == self.convert_field_name(sval(at(at(found, j), 0))))),
+            "entries_are_attribute_then_tokens": forall(range(seq_len(found)), lambda j: implies(
+                seq_len(at(at(found, j), 1)) > 0,
+                sval(at(result, j)) == self.convert_field_name(sval(at(at(found, j), 0))) + ("#" + ".".join(at(at(found, j), 1))))),
+        }
+
+
 @specrec
 def conv_ok(path, value, t):
     """value is a legal input for the converter path: strings that the leaf pseudo-type accepts, under Optional / List / Dict"""
